@@ -178,6 +178,20 @@ impl Executor {
                                     })
                                 })
                             });
+
+                            // If the worker returned early (panic or forced
+                            // termination), tasks may be left in its fast slot
+                            // and local queue. They must not be dropped here:
+                            // dropping a task may wake other tasks, which
+                            // requires a local worker. Hand them over to the
+                            // injector queue instead, which is only dropped
+                            // together with the executor, once all tasks have
+                            // been cancelled.
+                            while let Some(task) =
+                                worker.fast_slot.take().or_else(|| worker.local_queue.pop())
+                            {
+                                worker.executor_context.injector.insert_task(task);
+                            }
                         }
                     })
                     .unwrap()
